@@ -65,7 +65,7 @@ class StreamingDetector(ABC):
                     raise ValueError(
                         "Columns of new data must match with columns of prior data."
                     )
-            ary = X.values
+            ary = X.values.copy()
         else:
             ary = copy.copy(X)
             ary = np.array(ary)
@@ -243,7 +243,7 @@ class BatchDetector(ABC):
                     raise ValueError(
                         "Columns of new data must match with columns of prior data."
                     )
-            ary = X.values
+            ary = X.values.copy()
         else:
             ary = copy.copy(X)
             ary = np.array(ary)
